@@ -55,8 +55,9 @@ SPEC = {
     'NNX GRUCell has no b_hn parameter although its docstring shows one (modelled as b_hn = 0); GRU is not part of the Linen/NNX agreement clause',
   ],
   'model_partial': [
-    'cell recurrences (LSTM/GRU/Simple/MGU): transcribed in the model and compared exactly on integer instances and with tolerance on floats, no theorem beyond lstm_optimized_eq (they are formulas over sigmoid/tanh)',
-    'softmax numerics: theorems are for any row function that sees only the allowed (logit, value) pairs (SeesOnlyVisible); that the real softmax·V is such a function is A-SOFTMAX, checked by paired runs only',
+    'cell recurrences: lstm_follows_doc / gru_follows_doc / gru_nnx_follows_doc / simple_follows_doc / mgu_follows_doc / lstm_optimized_eq prove that the code\'s dense-layer plumbing (which kernel and bias feeds which gate, b_hn placement, concatenated NNX / OptimizedLSTM layouts) equals the documented formulas over any scalar type with associative/commutative +,* where stated; sigmoid/tanh stay uninterpreted and float rounding (non-associative +) is compared with tolerance only; ConvLSTMCell has no model (compared with tolerance only)',
+    'softmax numerics: the attention theorems hold for any row function that sees only the allowed (logit, value) pairs (SeesOnlyVisible); attend_sees_only_visible reduces that to two primitive facts about softmax and the weighted sum, which for the real float softmax hold only on rows with at least one allowed entry and are checked by the paired == runs, not proved',
+    'rnn_nd_spec / flip_nd_spec model arrays as total read functions with NumPy broadcasting; feature axes of the RNN input are abstracted into the element type; the compiled driver still runs the one-row model (the n-d model is proof-only, tied to it by flip_nd_row / rnn_nd_spec)',
   ],
 }
 
@@ -967,8 +968,13 @@ def _lean_cell_req(name, api, cp, c, h, x):
       return ('lstm', [o, c, h, x])
     return ('lstm_opt', [o, c, h, x, api == 'linen'])
   if name == 'GRU':
+    if api == 'nnx':  # the code's own layout: one 3H-wide input layer with bias, one 3H-wide hidden layer without
+      o = {'wi': T_(np.concatenate([cp['i' + g][0] for g in 'rzn'], axis=1)), 'bi': sum((V_(cp['i' + g][1], H) for g in 'rzn'), []),
+           'wh': T_(np.concatenate([cp['h' + g][0] for g in 'rzn'], axis=1))}
+      return ('gru_nnx', [o, h, x])
     o = {'ir': T_(cp['ir'][0]), 'iz': T_(cp['iz'][0]), 'in': T_(cp['in'][0]), 'bir': V_(cp['ir'][1], H), 'biz': V_(cp['iz'][1], H),
-         'bin': V_(cp['in'][1], H), 'hr': T_(cp['hr'][0]), 'hz': T_(cp['hz'][0]), 'hn': T_(cp['hn'][0]), 'bhn': V_(cp['hn'][1], H)}
+         'bin': V_(cp['in'][1], H), 'hr': T_(cp['hr'][0]), 'hz': T_(cp['hz'][0]), 'hn': T_(cp['hn'][0]),
+         'bhn': None if cp['hn'][1] is None else V_(cp['hn'][1], H)}
     return ('gru', [o, h, x])
   o = {'if': T_(cp['if'][0]), 'bif': V_(cp['if'][1], H), 'hf': T_(cp['hf'][0]), 'in': T_(cp['in'][0]), 'bin': V_(cp['in'][1], H),
        'hn': T_(cp['hn'][0]), 'bhn': V_(cp['hn'][1], H)}
